@@ -57,6 +57,7 @@ type Cfg struct {
 	Retry     bool     `json:"retry"`
 	RetryFast bool     `json:"retry_fast"` // true: 2 ms back-off (retries happen); false: 1 h (only shutdown ends the wait)
 	CloseErr  bool     `json:"close_err"`  // persistent: the storage client's Close reports an error (Shutdown then returns one)
+	SlowCall  int      `json:"slow_call"`  // persistent: storage call number slow_call of the first incarnation is slow (held until everything else is quiet)
 	TimeoutMs int      `json:"timeout_ms"` // per-attempt timeout (0 = none); "slow" / "deaf" export calls ignore their context and outlast it
 }
 
@@ -390,6 +391,12 @@ func runScript(sc Script, serial *sync.Mutex) []Ev {
 				store.CloseErr = errors.New("scripted failure to close the storage client")
 			}
 			store.NewIncarnation(0)
+			if cfg.SlowCall > 0 {
+				// a slow storage write: with the queue's mutex held across storage calls this only delays everybody; a queue
+				// that releases its mutex around a write lets later dequeues / completions overtake it (seeded change C03-7)
+				store.HoldSurvives = true
+				store.SetHold(cfg.SlowCall)
+			}
 			host = &xh.Host{ID: sid, Ext: &xh.Ext{S: store}}
 		}
 		opts = append(opts, exporterhelper.WithQueue(qc))
